@@ -111,6 +111,27 @@ def _oracle_failed(mon, e):
 _installed = []   # (owner, attr, original descriptor) for uninstall
 
 
+def _reproducible(mon, e, args, kwargs):
+    """LAPACK's "Eigenvalues did not converge" (numpy.linalg.LinAlgError out of np.roots) was observed once, on a
+    heavily oversubscribed machine, for an input on which the same call returns normally in every repetition (DESIGN
+    6.3): it is charged to the library only if the same call raises it again when repeated at once.  Only this
+    exception type is treated so, and every function that can raise it (intersect, polyroots, radialrange, bbox,
+    transform) is free of side effects, so that the repetition changes nothing."""
+    if type(e).__name__ != 'LinAlgError':
+        return True
+    from . import core
+    STATE.suspend += 1
+    try:
+        mon.orig(*args, **kwargs)
+    except BaseException as e2:   # noqa
+        return type(e2).__name__ != 'VTTimeout'
+    finally:
+        STATE.suspend -= 1
+    if core.CTX is not None:
+        core.CTX.note('unreproducible_LinAlgError_not_charged:%s' % mon.name)
+    return False
+
+
 def _make_wrapper(mon):
     orig = mon.orig
 
@@ -143,7 +164,8 @@ def _make_wrapper(mon):
             mon.raised += 1
             call.exc = e
             if mon.on_exc is not None and not isinstance(e, (KeyboardInterrupt, SystemExit)) and \
-                    type(e).__name__ != 'VTTimeout':      # the harness's own watchdog is not the library raising
+                    type(e).__name__ != 'VTTimeout' and \
+                    _reproducible(mon, e, args, kwargs):  # the harness's own watchdog is not the library raising
                 STATE.suspend += 1
                 try:
                     if mon.on_exc(call) is not False:
